@@ -113,6 +113,7 @@ func (h *H) drawCase(rt *rapid.T, prop string, excl map[string]int) *core.Case {
 	case "C17", "C18":
 		p.MaxIfaces = 3
 		p.MultiArgPct = 60
+		p.DestTest = 25
 	}
 	g := gen.New(rt, p, h.Open, excl)
 	c := g.Case()
@@ -151,6 +152,10 @@ func (h *H) drawCase(rt *rapid.T, prop string, excl map[string]int) *core.Case {
 		s.Rm = g.Chance(35)
 		faults := []string{"none", "none", "none", "none", "none", "none", "noargs", "onearg", "srcmissing", "srcempty", "syntaxerr", "typeerr", "twopkgs", "badarg", "badarg", "badarg",
 			"mkdirfail", "outisdir", "outisemptydir", "immutable", "immutabledir", "longname", "rmfail", "fsize", "stdout", "badarg-stdout", "stdoutfull"}
+		if prop == "C18" {
+			// side effects of SUCCESSFUL runs matter as much as those of failing ones
+			faults = append(faults, "none", "none", "none", "none", "none", "none")
+		}
 		s.Fault = g.Pick(faults)
 		if s.Fault == "fsize" && h.Open["F-J"] {
 			excl["F-J"]++
@@ -163,13 +168,17 @@ func (h *H) drawCase(rt *rapid.T, prop string, excl map[string]int) *core.Case {
 			dir = "out/" + c.Cfg.Pkg
 		}
 		name := "mock_gen.go"
-		if c.Cfg.DestKind == "test" && g.Chance(65) {
+		if c.Cfg.DestKind == "test" && g.Chance(50) {
 			name = "mock_gen_test.go" // otherwise: a name the go command would not take for a test file (moq must not care)
 		}
 		if g.Chance(30) {
 			name += ".txt"
 		}
-		switch g.Int(0, 3) {
+		place := g.Int(0, 3)
+		if c.Cfg.DestKind == "test" && g.Chance(50) {
+			place = 0 // the external test package lives next to the sources
+		}
+		switch place {
 		case 0:
 			s.OutRel = dir + "/" + name
 		case 1:
